@@ -10,6 +10,10 @@ for d in sorted(glob.glob(os.path.join(VERIF, "seeded", "*"))):
     target = meta.get("breaks_property") or os.path.basename(d).split("-")[0]
     if "--all-props" in sys.argv:
         props = ALL
+    elif "--target-only" in sys.argv:
+        props = [target] if target in ALL else []
+        if "--skip-done" in sys.argv and os.path.basename(d) < os.environ.get("MATRIX_FROM", ""):
+            continue
     else:
         props = sorted(set([target] + meta.get("detected_by", [])) & set(ALL))
     if not props:
